@@ -33,6 +33,7 @@ import (
 	"strings"
 	"sync"
 	"sync/atomic"
+	"syscall"
 
 	"github.com/cloudwego/dynamicgo/conv"
 	"github.com/cloudwego/dynamicgo/conv/j2p"
@@ -40,6 +41,7 @@ import (
 	"github.com/cloudwego/dynamicgo/conv/p2j"
 	"github.com/cloudwego/dynamicgo/conv/t2j"
 	dhttp "github.com/cloudwego/dynamicgo/http"
+	"github.com/cloudwego/dynamicgo/internal/native/types"
 	"github.com/cloudwego/dynamicgo/meta"
 	"github.com/cloudwego/dynamicgo/proto"
 	pbinary "github.com/cloudwego/dynamicgo/proto/binary"
@@ -99,7 +101,7 @@ struct Req {
     9: i32 Def = 42,
     10: optional string OptDef = "dflt",
     300: required i64 Big,
-    32767: double Subfix,
+    4000: double Subfix,
 }
 
 struct Resp {
@@ -110,7 +112,7 @@ struct Resp {
     6: i64 Code (api.js_conv = ""),
     7: InnerR Inner,
     9: i32 Def = 42,
-    32767: double Subfix,
+    4000: double Subfix,
 }
 
 struct Small {
@@ -181,9 +183,48 @@ type c12inputs struct {
 
 const c12spare = 24
 
+// shared inputs live in anonymous mappings that are made READ-ONLY once the fixtures are built: a write into a caller's
+// input - even a transient one, even by the native (assembly) routines the race detector cannot see - is a fault
+type c12arena struct {
+	chunks [][]byte
+	off    int
+}
+
+const c12chunk = 16 << 20
+
+func (a *c12arena) alloc(n int) []byte {
+	if n > c12chunk {
+		return make([]byte, n)
+	}
+	if len(a.chunks) == 0 || a.off+n > c12chunk {
+		m, err := syscall.Mmap(-1, 0, c12chunk, syscall.PROT_READ|syscall.PROT_WRITE, syscall.MAP_ANON|syscall.MAP_PRIVATE)
+		if err != nil {
+			return make([]byte, n) // no mapping available: fall back to the heap (still byte-compared after every round)
+		}
+		a.chunks = append(a.chunks, m)
+		a.off = 0
+	}
+	m := a.chunks[len(a.chunks)-1]
+	b := m[a.off : a.off+n : a.off+n]
+	a.off += (n + 15) &^ 15
+	return b
+}
+
+func (a *c12arena) protect() int {
+	n := 0
+	for _, m := range a.chunks {
+		if syscall.Mprotect(m, syscall.PROT_READ) == nil {
+			n++
+		}
+	}
+	return n
+}
+
+var c12mem c12arena
+
 func (in *c12inputs) add(name string, b []byte) []byte {
 	// the shared slice has spare capacity filled with a sentinel: an append into the caller's input is seen as well
-	full := make([]byte, len(b)+c12spare)
+	full := c12mem.alloc(len(b) + c12spare)
 	copy(full, b)
 	for i := len(b); i < len(full); i++ {
 		full[i] = 0xA5
@@ -230,6 +271,17 @@ var c12kindNames = map[int]string{
 	11: "thrift.GetByPath", 12: "thrift.PathNode.Load+Marshal", 13: "thrift.MarshalTo", 14: "thrift.descriptor-lookups",
 	15: "proto.GetByPath", 16: "proto.PathNode.Load+Marshal", 17: "proto.MarshalTo", 18: "proto.descriptor-lookups",
 	19: "thrift.BinaryProtocol(pooled).WriteAnyWithDesc", 20: "thrift.ReadAnyWithDesc", 21: "thrift.Skip",
+}
+
+func c12msg(err error) string {
+	if err == nil {
+		return ""
+	}
+	m := err.Error()
+	if len(m) > 300 {
+		m = m[:300]
+	}
+	return strings.ReplaceAll(m, "\n", " ")
 }
 
 func c12call(f func() c12out) (o c12out) {
@@ -583,13 +635,13 @@ func c12buildWorld(r *rng) *c12world {
 			}
 			w.addOp(1, fmt.Sprintf("j2t.Do doc%d opt%d", d, ci), false, func() c12out {
 				out, err := cv.Do(ctx, reqDesc, js)
-				return c12out{data: out, err: err != nil, keep: [][]byte{out}}
+				return c12out{data: out, err: err != nil, keep: [][]byte{out}, msg: c12msg(err)}
 			})
 			w.addOp(2, fmt.Sprintf("j2t.DoInto doc%d opt%d", d, ci), false, func() c12out {
 				buf := make([]byte, 0, 16)
 				err := cv.DoInto(ctx, reqDesc, js, &buf)
 				if err != nil {
-					return c12out{err: true}
+					return c12out{err: true, msg: c12msg(err)}
 				}
 				return c12out{data: buf, keep: [][]byte{buf}}
 			})
@@ -621,7 +673,7 @@ func c12buildWorld(r *rng) *c12world {
 			cv := j2tcvs[vi%len(j2tcvs)]
 			w.addOp(1, fmt.Sprintf("j2t.Do doc%d bad%d", d, vi), true, func() c12out {
 				out, err := cv.Do(ctx, reqDesc, vb)
-				return c12out{data: out, err: err != nil, keep: [][]byte{out}}
+				return c12out{data: out, err: err != nil, keep: [][]byte{out}, msg: c12msg(err)}
 			})
 		}
 		for vi, v := range c12variants(r.fork(), tb0, 120) {
@@ -629,7 +681,7 @@ func c12buildWorld(r *rng) *c12world {
 			cv := t2jcvs[vi%len(t2jcvs)]
 			w.addOp(3, fmt.Sprintf("t2j.Do doc%d bad%d", d, vi), true, func() c12out {
 				out, err := cv.Do(ctx, reqDesc, vb)
-				return c12out{data: out, err: err != nil, keep: [][]byte{out}}
+				return c12out{data: out, err: err != nil, keep: [][]byte{out}, msg: c12msg(err)}
 			})
 			if vi%3 == 0 {
 				w.addOp(13, fmt.Sprintf("thrift.MarshalTo doc%d bad%d", d, vi), true, func() c12out {
@@ -658,6 +710,7 @@ func c12buildWorld(r *rng) *c12world {
 			{generic.NewPathFieldName("Inner"), generic.NewPathFieldName("MSI"), generic.NewPathStrKey("in0")},
 			{generic.NewPathFieldId(300)},
 			{generic.NewPathFieldId(299)},
+			{generic.NewPathFieldId(4000)},
 			{},
 		}
 		for pi, p := range paths {
@@ -832,7 +885,7 @@ func c12buildWorld(r *rng) *c12world {
 		var sb strings.Builder
 		for _, td := range []*thrift.TypeDescriptor{reqDesc, respDesc, reqDesc.Struct().FieldById(7).Type()} {
 			st := td.Struct()
-			for _, id := range []int{0, 1, 2, 3, 4, 5, 6, 7, 8, 9, 10, 13, 18, 19, 20, 255, 300, 301, 32767} {
+			for _, id := range []int{0, 1, 2, 3, 4, 5, 6, 7, 8, 9, 10, 13, 18, 19, 20, 255, 300, 301, 4000, 32767} {
 				if f := st.FieldById(thrift.FieldID(id)); f != nil {
 					fmt.Fprintf(&sb, "%d=%s/%d;", id, f.Name(), f.Type().Type())
 				}
@@ -1118,7 +1171,7 @@ func (w *c12world) round(r *rng, idx int, seed uint64, G, P, perG int, mix []int
 				s.calls++
 				if !res.same(&w.oracle[oi]) {
 					s.mismatch++
-					c12report("C12-MISMATCH what=result round=%d op=%q err=%v/%v panic=%v/%v len=%d/%d", idx, op.name, res.err, w.oracle[oi].err, res.pan, w.oracle[oi].pan, len(res.data), len(w.oracle[oi].data))
+					c12report("C12-MISMATCH what=result round=%d op=%q err=%v/%v panic=%v/%v len=%d/%d msg=%q", idx, op.name, res.err, w.oracle[oi].err, res.pan, w.oracle[oi].pan, len(res.data), len(w.oracle[oi].data), res.msg)
 				}
 				if len(held) < 48 || gr.chance(10) {
 					for _, k := range res.keep {
@@ -1243,6 +1296,110 @@ func c12recycleProto(w *c12world, r *rng) {
 	}
 }
 
+// j2t after pool MISSES (finding 1203). A fresh J2TStateMachine has a 4096-byte ReqsCache; a struct whose Requires() bitmap
+// fills it (max field id >= 32704) plus one nested struct makes the native code ask for more (ERR_OOM_BM), GrowReqCache
+// (internal/native/types/types.go:382-387) replaces the array, but the enclosing struct's state keeps a RAW pointer into
+// the old one (J2TExtra, native/thrift.c:239), which the garbage collector may hand to somebody else. In steady state the
+// pooled state machines have grown caches and nothing happens; after a pool miss (GC emptied the pool, or the race-mode
+// sync.Pool dropped the Put) it does. The scenario takes the pooled object away before a quarter of the calls, like the
+// race-mode pool does, under allocation pressure; the control runs the same with max field id 4000 (no growth).
+func c12poolMiss(r *rng) {
+	ctx := context.Background()
+	mk := func(maxid int) (*thrift.TypeDescriptor, error) {
+		idl := fmt.Sprintf(`namespace go c12
+struct Inner { 1: bool B, 4: i32 I32, 7: string S, 8: list<i32> L, 9: map<string,string> M, 13: binary Bin, 18: list<Inner> LI, 19: map<string, Inner> MSI }
+struct Req { 1: optional string Msg, 3: required string Path, 6: i64 Code, 7: Inner Inner, 9: i32 Def = 42, 300: required i64 Big, %d: double Subfix }
+service Svc { Req M(1: Req req) }
+`, maxid)
+		svc, err := thrift.Options{}.NewDescritorFromContent(ctx, "c12pm.thrift", idl, map[string]string{}, false)
+		if err != nil {
+			return nil, err
+		}
+		return svc.Functions()["M"].Request().Struct().FieldById(1).Type(), nil
+	}
+	inner := `{"B":true,"I32":5,"S":"long-long-long-long-long-long-long-long-string","L":[1,2,3,4,5],"M":{"k0":"a","k1":"b"},"Bin":"aGVsbG8gd29ybGQ=","LI":[{"S":"x","L":[1]},{"S":"y"}],"MSI":{"in0":{"S":"z","L":[9,9,9]}}}`
+	js := []byte(`{"Msg":"hello","Path":"p","Code":12345,"Inner":` + inner[:len(inner)-1] + `,"LI":[` + inner + `,` + inner + `]},"Big":5,"Subfix":1.5}`)
+	cvs := []j2t.BinaryConv{j2t.NewBinaryConv(conv.Options{}), j2t.NewBinaryConv(conv.Options{DisallowUnknownField: true, NoBase64Binary: true}),
+		j2t.NewBinaryConv(conv.Options{WriteDefaultField: true, WriteRequireField: true})}
+	perG := 6000
+	if c12race {
+		perG = 300
+	}
+	run := func(maxid int) (calls, errs, wrong int64, ok bool) {
+		desc, err := mk(maxid)
+		if err != nil {
+			return 0, 0, 0, false
+		}
+		var wants [][]byte
+		for i := range cvs {
+			w, err := cvs[i].Do(ctx, desc, js)
+			if err != nil {
+				return 0, 0, 0, false
+			}
+			wants = append(wants, w)
+		}
+		runtime.GOMAXPROCS(16)
+		stop := make(chan struct{})
+		var wg, wg2 sync.WaitGroup
+		for g := 0; g < 32; g++ {
+			wg.Add(1)
+			go func() {
+				defer wg.Done()
+				for n := 1; n <= perG; n++ {
+					if n%4 == 0 {
+						_ = types.NewJ2TStateMachine() // pool miss for the next call
+						_ = conv.NewBytes()
+					}
+					i := n % len(cvs)
+					out, err := cvs[i].Do(ctx, desc, js)
+					atomic.AddInt64(&calls, 1)
+					if err != nil {
+						if atomic.AddInt64(&errs, 1) <= 2 {
+							c12report("C12-POOLMISS maxid=%d spurious error: %s", maxid, c12msg(err))
+						}
+					} else if !bytes.Equal(out, wants[i]) {
+						if atomic.AddInt64(&wrong, 1) <= 2 {
+							c12report("C12-POOLMISS maxid=%d wrong output: %d bytes, alone %d bytes", maxid, len(out), len(wants[i]))
+						}
+					}
+					if n%7 == 0 {
+						runtime.Gosched()
+					}
+				}
+			}()
+		}
+		for g := 0; g < 4; g++ {
+			wg2.Add(1)
+			go func() {
+				defer wg2.Done()
+				for {
+					select {
+					case <-stop:
+						return
+					default:
+					}
+					for k := 0; k < 16; k++ {
+						b := make([]byte, 4096)
+						for i := range b {
+							b[i] = 0xff
+						}
+					}
+					runtime.Gosched()
+				}
+			}()
+		}
+		wg.Wait()
+		close(stop)
+		wg2.Wait()
+		return calls, errs, wrong, true
+	}
+	c1, e1, w1, ok1 := run(32767)
+	c2, e2, w2, ok2 := run(4000)
+	if ok1 && ok2 {
+		out.emit(1205, fi(32767), fn(c1), fn(e1), fn(w1), fi(4000), fn(c2), fn(e2), fn(w2))
+	}
+}
+
 // error exits: after K failing calls of one kind in a row, successful calls still give the oracle result
 func (w *c12world) errorExits(r *rng) {
 	byKind := map[int][]int{}
@@ -1289,13 +1446,26 @@ func (w *c12world) errorExits(r *rng) {
 func genC12(r *rng, n int) {
 	seed := r.s
 	w := c12buildWorld(r.fork())
-	fmt.Fprintf(os.Stderr, "C12-WORLD ops=%d inputs=%d descriptor_dumps=%d unstable_alone=%d\n", len(w.ops), len(w.in.live), len(w.dumps), w.unstable)
+	prot := 0
+	if os.Getenv("C12_NO_MPROTECT") == "" {
+		prot = c12mem.protect()
+	}
+	fmt.Fprintf(os.Stderr, "C12-WORLD ops=%d inputs=%d descriptor_dumps=%d unstable_alone=%d readonly_input_chunks=%d/%d\n", len(w.ops), len(w.in.live), len(w.dumps), w.unstable, prot, len(c12mem.chunks))
 	c12recycleThrift(w, r.fork())
 	c12recycleProto(w, r.fork())
 	w.errorExits(r.fork())
+	c12poolMiss(r.fork())
 
 	Gs := []int{1, 4, 8, 16, 32, 64}
 	Ps := []int{1, 2, 16}
+	// replay / focus knob: C12_FOCUS="G,P,kind,kind,..." makes every round use that G, P and only those operation kinds
+	var focus []int
+	for _, t := range strings.Split(os.Getenv("C12_FOCUS"), ",") {
+		v := 0
+		if _, err := fmt.Sscanf(strings.TrimSpace(t), "%d", &v); err == nil {
+			focus = append(focus, v)
+		}
+	}
 	var carried []c12held
 	for round := 0; round < n; round++ {
 		G := Gs[round%len(Gs)]
@@ -1306,7 +1476,19 @@ func genC12(r *rng, n int) {
 		}
 		// operation mix: every third round everything, otherwise a PRNG-chosen subset of kinds (+ their failing variants)
 		var mix []int
-		if round%3 == 0 {
+		if len(focus) >= 2 {
+			G, P = focus[0], focus[1]
+			for i, op := range w.ops {
+				for _, k := range focus[2:] {
+					if op.kind == k {
+						mix = append(mix, i)
+					}
+				}
+			}
+		}
+		if len(mix) > 0 {
+			// focused round
+		} else if round%3 == 0 {
 			for i := range w.ops {
 				mix = append(mix, i)
 			}
@@ -1349,7 +1531,7 @@ func genC12(r *rng, n int) {
 			s := stats[k]
 			out.emit(1201, fi(k), fi(G), fi(P), fi(s.calls), fb(s.mismatch == 0), fb(len(badIn) == 0), fb(len(badDesc) == 0), fb(s.retainedBad == 0))
 		}
-		if len(badIn) > 0 {
+		if len(badIn) > 0 && prot == 0 {
 			// restore so that the following rounds are judged on their own
 			for i := range w.in.live {
 				copy(w.in.live[i], w.in.copy[i])
